@@ -31,10 +31,10 @@ SUITE_OK=no; echo "$SUITE" | grep -q "FAILED" || { echo "$SUITE" | grep -q "58 p
 HEAD_OK=no; echo "$DEMO_HEAD" | grep -q "test result: ok" && HEAD_OK=yes
 MUT_FAILS=no; echo "$DEMO_MUT" | grep -qE "FAILED|^error" && MUT_FAILS=yes
 # checks against the changed tree
-mkdir -p "/tmp/scratch/vout$SLOT"; cp /verif/known_findings.json "/tmp/scratch/vout$SLOT/"
+mkdir -p "/tmp/scratch/vout$SLOT"; cp "${VERIF_DIR:-/verif}/known_findings.json" "/tmp/scratch/vout$SLOT/"
 DETECT=""; DETAILS=""
 for id in ${CHECKS:-C01 C02 C03 C04 C05 C08 C09 C10 C17 C18}; do
-  R="$(cd /verif && VERIF_REPO="$SCR" VERIF_ROOT="/tmp/scratch/vout$SLOT" TIER=quick ./check "$id" --tier "${TIER:-quick}" 2>&1)"
+  R="$(cd "${VERIF_DIR:-/verif}" && VERIF_REPO="$SCR" VERIF_ROOT="/tmp/scratch/vout$SLOT" TIER=quick ./check "$id" --tier "${TIER:-quick}" 2>&1)"
   RC=$?
   if echo "$R" | grep -q "^VIOLATION"; then
     DETECT="$DETECT $id"
